@@ -76,6 +76,7 @@ func (c *FnCtx) callCommon(call *ssa.CallCommon, v ssa.Value, pos token.Pos) []s
 			c.assumeValid(out[i], sig.Results().At(i).Type())
 		}
 	}
+	c.checkCallAsserts(callee, call, args, argTypes, pos)
 	var key string
 	var con *Contract
 	if callee != nil && callee.Signature.Recv() != nil && len(args) > 0 {
@@ -1005,10 +1006,115 @@ func (c *FnCtx) resolverAtEntry() func(string) (sv, bool) {
 	}
 }
 
+// checkCallAsserts: "call F requires E" clauses of the enclosing function's contract - an obligation at
+// every call of F, over the call's arguments (arg0, arg1, ...) and the caller's variables.
+func (c *FnCtx) checkCallAsserts(callee *ssa.Function, call *ssa.CallCommon, args []string, argTypes []types.Type, pos token.Pos) {
+	if c.con == nil || callee == nil {
+		return
+	}
+	for _, cl := range c.con.Clauses {
+		if cl.Kind != "callassert" || cl.Callee != callee.Name() {
+			continue
+		}
+		env := c.conEnv()
+		env.pkg = c.pkgTypes()
+		env.heap = c.cur
+		env.old = c.entry
+		for i := range args {
+			env.vars[fmt.Sprintf("arg%d", i)] = sv{args[i], argTypes[i]}
+		}
+		blk := c.curBlock
+		entryResolve := c.resolverAtEntry()
+		env.resolve = func(name string) (sv, bool) {
+			if v, ok := c.lastDefIn(name, blk); ok {
+				return v, true
+			}
+			if v, ok := c.valueAt(name, blk, nil); ok {
+				return v, true
+			}
+			return entryResolve(name)
+		}
+		t, err := env.evalBool(cl.E)
+		if err != nil {
+			c.dropInvariant(cl, err)
+			continue
+		}
+		c.oblige("call-assert:"+callee.Name(), cl.Props, c.guard(), t, pos, cl, "at the call of "+callee.Name()+": "+cl.Text)
+	}
+}
+
+// applyGhostSets performs the contract's ghost assignments (set ghost(x, "name") = E) at a return,
+// before type invariants and postconditions are checked.
+func (c *FnCtx) applyGhostSets(x *ssa.Return) {
+	if c.con == nil {
+		return
+	}
+	has := false
+	for _, cl := range c.con.Clauses {
+		if cl.Kind == "setghost" {
+			has = true
+		}
+	}
+	if !has {
+		return
+	}
+	env := c.conEnv()
+	env.pkg = c.pkgTypes()
+	names := c.con.Results
+	if len(names) == 0 {
+		res := c.fn.Signature.Results()
+		for i := 0; i < res.Len(); i++ {
+			names = append(names, res.At(i).Name())
+		}
+	}
+	for i, r := range x.Results {
+		if i < len(names) && names[i] != "" && names[i] != "_" {
+			env.vars[names[i]] = sv{c.term(r), r.Type()}
+		}
+	}
+	env.old = c.entry
+	retBlock := c.curBlock
+	entryResolve := c.resolverAtEntry()
+	env.resolve = func(name string) (sv, bool) {
+		if v, ok := entryResolve(name); ok {
+			return v, true
+		}
+		if v, ok := c.lastDefIn(name, retBlock); ok {
+			return v, true
+		}
+		return c.valueAt(name, retBlock, nil)
+	}
+	ord := c.returnOrdinal(x)
+	for _, cl := range c.con.Clauses {
+		if cl.Kind != "setghost" || (cl.Ret != 0 && cl.Ret != ord) {
+			continue
+		}
+		env.heap = c.cur
+		var ref, val string
+		func() {
+			defer func() {
+				if r := recover(); r != nil {
+					c.dropInvariant(cl, fmt.Errorf("%v", r))
+				}
+			}()
+			ref = c.refOf(env.eval(cl.GhostObj))
+			val = env.eval(cl.E).t
+		}()
+		if ref == "" || val == "" {
+			continue
+		}
+		hn := "GH_g_" + cl.GhostName
+		h := c.heapGet(hn, "(Array Int Int)")
+		// conditional on the path: the assignment happens only when this return is reached
+		c.heapSet(hn, "(Array Int Int)", ite(c.guard(), sto(h, ref, val), h))
+	}
+}
+
 func (c *FnCtx) instrReturn(x *ssa.Return) {
 	c.retCount++
 	// vacuity guard: this return must be reachable under everything assumed so far
 	c.covers = append(c.covers, &Oblig{Block: c.curBlock, Name: fmt.Sprintf("%s/cover/return@%s#%d", c.key, c.posStr(x.Pos()), c.retCount), Kind: "cover", Goal: c.guard(), Prefix: len(c.ctx), Fn: c.key, Cover: true, ctx: c, PosStr: c.posStr(x.Pos())})
+	c.applyGhostSets(x)
 	c.checkTypeInvsAtReturn(x)
 	if c.con == nil {
 		return
